@@ -8,7 +8,11 @@ CHECK = {
     "rule": "",
     "harnesses": [H("e1", variant="free", build_only=True, libs=["vrt", "vsync", "vtime", "vctx"],
                     inpkg={"internal/agent": ["e1/zz_verif_e1_agent.go"], "internal/dag/scheduler": ["e1/zz_verif_e1_sched.go"]}),
-                  H("e1", sub="C02", **_E1)],
+                  H("e1", sub="C02", **_E1),
+                  # the same oracles on free runs with real sh children through the real command executor, with the step
+                  # attributes the scripted executor cannot carry (output capture, redirect files, script bodies)
+                  H("e1", variant="free", sub="C02real", libs=["vrt", "vsync", "vtime", "vctx"], shards={"quick": "ncpu", "thorough": "ncpu"},
+                    inpkg={"internal/agent": ["e1/zz_verif_e1_agent.go"], "internal/dag/scheduler": ["e1/zz_verif_e1_sched.go"]})],
     "assumptions": [],
 }
 TEXT = {"engine": "E1-coop", "design_ref": "DESIGN.md §3.1, §5 C02",
